@@ -246,6 +246,6 @@ pub fn property() -> Property {
     level: "exploration",
     rule: "generated (measurement bytes, t in 0..40, epoch strings empty / ASCII / multi-byte with quotes, backslashes, newlines, NUL; t-2..t+3 distinct shares, duplicates, shuffles, another epoch, a second measurement). Oracle: create_share parses as JSON with exactly key/share/tag, base64 fields decode to 16 bytes, a share accepted by Share::from_bytes with threshold t, 32 bytes, equal to MessageGenerator::share_with_local_randomness; group_shares returns the clients' key iff >= t distinct shares are present, never under another epoch, nothing for a mixed grouping below threshold (grouping is not asserted for t = 0). Non-trivial: share count within 1 of t, or a non-ASCII / empty epoch.",
     assumptions: vec!["the #[wasm_bindgen] functions are called natively on the host target"],
-    subs: vec![prop_sub("wasm_wrapper", 2500, 50000, strat, oracle)],
+    subs: vec![prop_sub("wasm_wrapper", 2500, 400000, strat, oracle)],
   }
 }
